@@ -19,7 +19,7 @@ RULE = (
 )
 ASSUMPTIONS = ['no repack and no deletion in the history (as the property states)', 'operations are sequential; one client writes packs at a time']
 
-WEIGHTS = {'add': 8, 'addpack': 9, 'pack': 7, 'clean': 3, 'aux_add': 2, 'import': 3, 'loosen': 1, 'reopen': 3, 'switch': 5, 'seekread': 1, 'addfail': 2}
+WEIGHTS = {'add': 8, 'addpack': 9, 'pack': 7, 'clean': 3, 'aux_add': 2, 'import': 3, 'loosen': 1, 'reopen': 3, 'switch': 5, 'seekread': 1, 'addfail': 2, 'stale_lock': 2}
 
 
 def strategy(tier='quick'):
